@@ -522,6 +522,31 @@ func (c *Ctx) nodeKind(n *types.Named) string {
 		}
 	}
 	if kind == "node" {
+		// a node whose Callback compares its own integer fields (counters against bounds)
+		if cb := c.lookupMethod("", n.Obj().Name(), "Callback"); cb != nil && c.IsLib(cb) {
+			ncmp := 0
+			for _, b := range cb.Blocks {
+				for _, in := range b.Instrs {
+					bo, ok := in.(*ssa.BinOp)
+					if !ok || !isIntType(bo.X.Type()) {
+						continue
+					}
+					switch bo.Op {
+					case token.LSS, token.LEQ, token.GTR, token.GEQ:
+						for _, og := range origins(bo.X) {
+							if _, f, nn := fieldLoad(og); f != "" && nn != nil && types.Identical(nn, n) {
+								ncmp++
+							}
+						}
+					}
+				}
+			}
+			if ncmp >= 2 {
+				kind = "window"
+			}
+		}
+	}
+	if kind == "node" {
 		if st, ok := n.Underlying().(*types.Struct); ok {
 			for i := 0; i < st.NumFields(); i++ {
 				if _, isFunc := st.Field(i).Type().Underlying().(*types.Signature); isFunc {
@@ -1212,6 +1237,240 @@ func ruleSORT2(c *Ctx) []Ob {
 				o.add(OK, key, pos, "-> %d", want)
 			} else {
 				o.add(VIOLATED, key, pos, "an input direction of %d is normalised to %v, the documented value is %d", d, stored, want)
+			}
+		}
+	}
+	return softenUndecided(o.list)
+}
+
+// ---------------------------------------------------------------- WIN1
+
+// WIN1: the skip/limit node's per-document transition, decided by predicate
+// abstraction: with A = "skipped counter < skip", B = "limit < 0", C = "consumed
+// counter < limit" injected as constants (all 8 combinations), Callback
+//   A            -> counts the document as skipped, returns nil, forwards nothing
+//   !A && (B||C) -> counts it as consumed and returns what the next node returns
+//   otherwise    -> returns the stop sentinel, forwards nothing.
+// With both counters starting at zero (checked at the node's construction) this
+// is exactly the window [skip, skip+limit).
+func ruleWIN1(c *Ctx) []Ob {
+	o := newObs(c, "WIN1")
+	var node *types.Named
+	sp := c.LibPkgs[c.ModPath]
+	if sp != nil {
+		for _, mem := range sp.Members {
+			if tn, ok := mem.(*ssa.Type); ok {
+				if n, ok := tn.Type().(*types.Named); ok {
+					if _, isStruct := n.Underlying().(*types.Struct); isStruct && c.nodeKind(n) == "window" {
+						// a plan node: it declares its own Callback(*Document) error
+						if m := c.lookupMethod("", n.Obj().Name(), "Callback"); m != nil && c.IsLib(m) && recvNamed(m) == n {
+							if node == nil || n.Obj().Name() < node.Obj().Name() {
+								node = n
+							}
+						}
+					}
+				}
+			}
+		}
+	}
+	if node == nil {
+		o.add(UNDECIDED, "window-node", "-", "skip/limit plan node not found")
+		return softenUndecided(o.list)
+	}
+	cb := c.lookupMethod("", node.Obj().Name(), "Callback")
+	if cb == nil {
+		o.add(UNDECIDED, "window-node", "-", "Callback of the skip/limit node not found")
+		return softenUndecided(o.list)
+	}
+	fieldOf := func(v ssa.Value) string {
+		for _, og := range origins(v) {
+			if _, f, n := fieldLoad(og); f != "" && n != nil && types.Identical(n, node) {
+				return f
+			}
+		}
+		return ""
+	}
+	// roles of the four fields from the comparisons in Callback
+	var limitF, consumedF, skippedF, skipF string
+	type cmpInfo struct {
+		bo   *ssa.BinOp
+		x, y string
+	}
+	var cmps []cmpInfo
+	for _, b := range cb.Blocks {
+		for _, in := range b.Instrs {
+			bo, ok := in.(*ssa.BinOp)
+			if !ok {
+				continue
+			}
+			switch bo.Op {
+			case token.LSS, token.LEQ, token.GTR, token.GEQ:
+				cmps = append(cmps, cmpInfo{bo, fieldOf(bo.X), fieldOf(bo.Y)})
+			}
+		}
+	}
+	for _, ci := range cmps {
+		if ci.x != "" && ci.y == "" {
+			if k, ok := constInt(ci.bo.Y); ok && k == 0 {
+				limitF = ci.x
+			}
+		}
+	}
+	for _, ci := range cmps {
+		if ci.x != "" && ci.y != "" {
+			if ci.y == limitF {
+				consumedF = ci.x
+			} else if ci.x == limitF {
+				consumedF = ci.y
+			}
+		}
+	}
+	for _, ci := range cmps {
+		if ci.x != "" && ci.y != "" && ci.x != consumedF && ci.y != consumedF && ci.x != limitF && ci.y != limitF {
+			// the counter is the one Callback stores to
+			stored := map[string]bool{}
+			for _, b := range cb.Blocks {
+				for _, in := range b.Instrs {
+					if st, ok := in.(*ssa.Store); ok {
+						if _, f, n := fieldOfAddr(st.Addr); n != nil && types.Identical(n, node) {
+							stored[f] = true
+						}
+					}
+				}
+			}
+			if stored[ci.x] {
+				skippedF, skipF = ci.x, ci.y
+			} else {
+				skippedF, skipF = ci.y, ci.x
+			}
+		}
+	}
+	pos := relPath(c, cb.Pos())
+	if limitF == "" || consumedF == "" || skippedF == "" || skipF == "" {
+		o.add(UNDECIDED, "window-node/fields", pos, "the roles of the node's counters and bounds could not be recovered from its comparisons")
+		return softenUndecided(o.list)
+	}
+	for _, A := range []bool{false, true} {
+		for _, B := range []bool{false, true} {
+			for _, C := range []bool{false, true} {
+				A, B, C := A, B, C
+				te := c.newTagEval()
+				forwarded := false
+				stores := map[string]bool{}
+				te.binopHook = func(bo *ssa.BinOp) (aval, bool) {
+					x, y := fieldOf(bo.X), fieldOf(bo.Y)
+					truth := func(v bool) (aval, bool) {
+						// normalise the operator direction: the predicate is stated as `<`
+						switch bo.Op {
+						case token.LSS:
+							return boolConst(v), true
+						case token.GEQ:
+							return boolConst(!v), true
+						}
+						return aval{}, false
+					}
+					switch {
+					case x == skippedF && y == skipF:
+						return truth(A)
+					case x == consumedF && y == limitF:
+						return truth(C)
+					case x == limitF && y == "":
+						if k, ok := constInt(bo.Y); ok && k == 0 {
+							return truth(B) // limit < 0
+						}
+					}
+					return aval{}, false
+				}
+				te.callHookEnv = func(call *ssa.Call, _ func(ssa.Value) aval) ([]aval, bool) {
+					if c.isCallbackForwarder(call) {
+						forwarded = true
+						return []aval{{K: aConst, C: constant.MakeString("result of the next node")}}, true
+					}
+					return nil, false
+				}
+				te.storeObs = func(st *ssa.Store, _ aval, _ func(ssa.Value) aval) {
+					if _, f, n := fieldOfAddr(st.Addr); n != nil && types.Identical(n, node) {
+						stores[f] = true
+					}
+				}
+				outs := te.Eval(cb, make([]aval, len(cb.Params)), 0)
+				key := fmt.Sprintf("%s.Callback/skipping=%v unlimited=%v below-limit=%v", node.Obj().Name(), A, B, C)
+				if len(outs) != 1 || outs[0].Panic {
+					o.add(UNDECIDED, key, pos, "the transition is not decided by the three predicates (%d outcomes)", len(outs))
+					continue
+				}
+				rv := outs[0].Vals[0]
+				kind := "?"
+				switch {
+				case rv.K == aConst && rv.C != nil && rv.C.Kind() == constant.String:
+					kind = "forward"
+				case rv.K == aTag && rv.Tag == nil:
+					kind = "nil"
+				case rv.K == aGlobal && strings.HasSuffix(globalFullName(rv.G), "/internal.ErrStopIteration"):
+					kind = "stop"
+				}
+				want := "stop"
+				switch {
+				case A:
+					want = "nil"
+				case B || C:
+					want = "forward"
+				}
+				bad := ""
+				switch {
+				case kind != want:
+					bad = fmt.Sprintf("returns %s, the window semantics require %s", kind, want)
+				case want == "nil" && (forwarded || !stores[skippedF] || stores[consumedF]):
+					bad = "a skipped document must only advance the skipped counter"
+				case want == "forward" && (!forwarded || !stores[consumedF] || stores[skippedF]):
+					bad = "a document inside the window must advance the consumed counter and be forwarded"
+				case want == "stop" && (forwarded || stores[consumedF] || stores[skippedF]):
+					bad = "past the window nothing may be forwarded or counted"
+				}
+				if bad != "" {
+					o.add(VIOLATED, key, pos, "%s", bad)
+				} else {
+					o.add(OK, key, pos, "-> %s", want)
+				}
+			}
+		}
+	}
+	// counters start at zero where the node is built
+	for _, fn := range c.LibFuncs {
+		for _, b := range fn.Blocks {
+			for _, in := range b.Instrs {
+				al, ok := in.(*ssa.Alloc)
+				if !ok {
+					continue
+				}
+				n, ok := al.Type().Underlying().(*types.Pointer).Elem().(*types.Named)
+				if !ok || !types.Identical(n, node) {
+					continue
+				}
+				bad := ""
+				for _, r := range realReferrers(al) {
+					fa, ok := r.(*ssa.FieldAddr)
+					if !ok {
+						continue
+					}
+					_, f, _ := fieldOfAddr(fa)
+					if f != skippedF && f != consumedF {
+						continue
+					}
+					for _, rr := range realReferrers(fa) {
+						if st, ok := rr.(*ssa.Store); ok && st.Addr == ssa.Value(fa) {
+							if k, ok := constInt(st.Val); !ok || k != 0 {
+								bad = f
+							}
+						}
+					}
+				}
+				key := c.fname(fn) + "/new " + node.Obj().Name() + " counters"
+				if bad != "" {
+					o.add(VIOLATED, key, relPath(c, al.Pos()), "the %s counter of a new skip/limit node does not start at zero", bad)
+				} else {
+					o.add(OK, key, relPath(c, al.Pos()), "both counters start at zero")
+				}
 			}
 		}
 	}
